@@ -416,7 +416,26 @@ def run(ck, facts, tier):
         for ti, mac in (("std::cmp::PartialEq::eq", "PartialEq"), ("std::hash::Hash::hash", "Hash")):
             rs = [rr for rr in facts.all_fns() if rr.get("trait_item") == ti and rr.get("self_ty") == ty]
             key = "%s:%s" % (ty.rsplit("::", 1)[-1], mac)
-            ck.check(r10_, key, len(rs) == 1 and mac in (rs[0].get("mac") or []), "%s of %s is not the derived structural one (hand-written or missing)" % (mac, ty.rsplit("::", 1)[-1]),
+            okd = len(rs) == 1 and mac in (rs[0].get("mac") or [])
+            if not okd and len(rs) == 1 and mac == "PartialEq":
+                # a hand-written `==` is accepted when it evaluates to the field-by-field conjunction, fields paired in place
+                try:
+                    flds_ = [f_["name"] for f_ in facts.adts[ty]["variants"][0]["fields"]]
+                    a_ = Rec(ty, {n_: Sym("l", n_) for n_ in flds_}) if not all(n_.isdigit() for n_ in flds_) else Sym("ctor", ty.rsplit("::", 1)[-1], *[Sym("l", n_) for n_ in flds_])
+                    b_ = Rec(ty, {n_: Sym("r", n_) for n_ in flds_}) if not all(n_.isdigit() for n_ in flds_) else Sym("ctor", ty.rsplit("::", 1)[-1], *[Sym("r", n_) for n_ in flds_])
+                    gv = cel.Ev(facts).apply_fn(rs[0]["fn"], [a_, b_], 0)
+                    conj = set()
+                    def split_and(k):
+                        if isinstance(k, tuple) and k[:2] == ("sym", "and"):
+                            for x_ in k[2:]:
+                                split_and(x_)
+                        else:
+                            conj.add(k)
+                    split_and(vkey(gv))
+                    okd = conj == {vkey(cel.eq_sym(Sym("l", n_), Sym("r", n_))) for n_ in flds_}
+                except (Unsupported, KeyError, IndexError):
+                    okd = False
+            ck.check(r10_, key, okd, "%s of %s is not the derived structural one (hand-written or missing)" % (mac, ty.rsplit("::", 1)[-1]),
                      "%s:%d" % (rs[0]["file"], rs[0]["line"]) if rs else None, sample="#[derive(%s)]" % mac)
     # "rejected ... and never yield rates", "returned exactly as quoted" also after updates and derivative-order switches: the market's state rules (C10 R10.3-R10.6)
     # "invalid quote sets are rejected and never yield rates" also when they arrive as a stored market: the loader goes through try_new (C20 S20.2)
